@@ -42,8 +42,11 @@ Proof.
   { intros E. inversion E; subst e. apply uc_first_spec. }
   destruct (Z.eqb_spec op 9) as [E9|N9].
   { intros E. inversion E; subst e. apply lc_first_spec. }
-  destruct (Z.eqb_spec op 10) as [E10|N10]; [|discriminate].
-  destruct (ident s) eqn:Ei; [|discriminate]. intros E. inversion E; subst e. unfold roundtrip. rewrite snake_camel_roundtrip by exact Ei. reflexivity.
+  destruct (Z.eqb_spec op 10) as [E10|N10].
+  { destruct (ident s) eqn:Ei; [|discriminate]. intros E. inversion E; subst e. unfold roundtrip. rewrite snake_camel_roundtrip by exact Ei. reflexivity. }
+  destruct (Z.eqb_spec op 11) as [E11|N11]; [|discriminate].
+  destruct (valid_utf8 s) eqn:Ev; [|discriminate]. intros E. inversion E; subst e.
+  rewrite remove_runes_spec by auto. rewrite runes_chunks. reflexivity.
 Qed.
 
 Lemma list_eqb_refl l : list_eqb l l = true.
